@@ -302,22 +302,41 @@ type clientOpts struct {
 	requests int
 	hold     chan struct{} // if set: keep the connection open (idle) until closed
 	abortAt  int           // >0: close the TCP connection after this many bytes of the session were written
+	reset    bool          // leave with a TCP reset (SO_LINGER 0) and without close_notify instead of an orderly close
+	partial  bool          // before leaving, send the first half of one more request (the server is mid-read when the client goes)
+	unread   bool          // before leaving, send one more complete request and do not read its response
+}
+
+func rstClose(c net.Conn) {
+	if t, ok := c.(*net.TCPConn); ok {
+		t.SetLinger(0)
+	}
+	c.Close()
 }
 
 type cutConn struct {
 	net.Conn
-	left int
+	left  int
+	reset bool
+}
+
+func (c *cutConn) cut() {
+	if c.reset {
+		rstClose(c.Conn)
+	} else {
+		c.Conn.Close()
+	}
 }
 
 func (c *cutConn) Write(p []byte) (int, error) {
 	if c.left <= 0 {
-		c.Conn.Close()
+		c.cut()
 		return 0, io.ErrClosedPipe
 	}
 	if len(p) > c.left {
 		n, _ := c.Conn.Write(p[:c.left])
 		c.left = 0
-		c.Conn.Close()
+		c.cut()
 		return n, io.ErrClosedPipe
 	}
 	c.left -= len(p)
@@ -329,10 +348,14 @@ func (s *Scenario) client(kind string, o clientOpts) (id string, err error) {
 	if err != nil {
 		return id, err
 	}
-	defer raw.Close()
+	if o.reset {
+		defer rstClose(raw)
+	} else {
+		defer raw.Close()
+	}
 	var c net.Conn = raw
 	if o.abortAt > 0 {
-		c = &cutConn{Conn: raw, left: o.abortAt}
+		c = &cutConn{Conn: raw, left: o.abortAt, reset: o.reset}
 	}
 	switch kind {
 	case "stall":
@@ -363,7 +386,9 @@ func (s *Scenario) client(kind string, o clientOpts) (id string, err error) {
 	if err != nil {
 		return id, err
 	}
-	defer tc.Close()
+	if !o.reset {
+		defer tc.Close()
+	}
 	tc.SetDeadline(time.Now().Add(15 * time.Second))
 	if kind == "h2" {
 		tc.Write([]byte(h2raw.Preface))
@@ -394,6 +419,18 @@ func (s *Scenario) client(kind string, o clientOpts) (id string, err error) {
 	if o.hold != nil {
 		tc.SetDeadline(time.Time{})
 		<-o.hold
+	}
+	if o.partial || o.unread {
+		if kind == "h2" {
+			sid := uint32(1 + 2*o.requests)
+			blk := h2raw.Block([]h2raw.HF{{":method", "POST"}, {":scheme", "https"}, {":authority", "vf.test"}, {":path", "/" + id}, {"x-vf-tag", id}})
+			tc.Write(h2raw.Headers(sid, o.unread, blk, nil, 0)) // partial: the request body never comes
+		} else if o.partial {
+			io.WriteString(tc, "POST /"+id+" HTTP/1.1\r\nHost: vf.test\r\nContent-Length: 100\r\nX-Vf-Tag: "+id+"\r\n\r\nhalf")
+		} else {
+			io.WriteString(tc, "GET /"+id+" HTTP/1.1\r\nHost: vf.test\r\nX-Vf-Tag: "+id+"\r\n\r\n")
+		}
+		time.Sleep(30 * time.Millisecond) // let the server get there
 	}
 	return id, nil
 }
